@@ -132,6 +132,8 @@ STD_OPTIONS = [
     ("posterior_sampling_method=importance_sampling", {}, {"posterior_sampling_method": "importance_sampling"}, True),
     ("posterior_sampling_method=multinomial_resampling", {}, {"posterior_sampling_method": "multinomial_resampling"}, False),
     ("n_pool=2", {"n_pool": 2}, {}, False),
+    ("torch_dtype=float64", {"torch_dtype": "float64"}, {}, False),
+    ("eps=1e-6", {"eps": 1e-6}, {}, False),
     ("disable_vectorisation=True", {"disable_vectorisation": True}, {}, False),
     ("likelihood_chunksize=10", {"likelihood_chunksize": 10}, {}, False),
     ("plot=True", {"plot": True}, {"plot": True}, False),
@@ -180,6 +182,9 @@ INS_OPTIONS = [
     ("posterior_sampling_method=rejection_sampling", {}, {"posterior_sampling_method": "rejection_sampling"}, True),
     ("posterior_sampling_method=multinomial_resampling", {}, {"posterior_sampling_method": "multinomial_resampling"}, False),
     ("n_pool=2", {"n_pool": 2}, {}, False),
+    ("torch_dtype=float64", {"torch_dtype": "float64"}, {}, False),
+    ("disable_vectorisation=True", {"disable_vectorisation": True}, {}, False),
+    ("likelihood_chunksize=10", {"likelihood_chunksize": 10}, {}, False),
     ("plot=True", {"plot": True}, {"plot": True}, False),
     ("plot=True,plot_extra_state=True", {"plot": True, "plot_extra_state": True}, {}, True),
     ("plot=True,plot_training_data,plot_level_cdf,plot_pool", {"plot": True, "plot_training_data": True, "plot_level_cdf": True,
@@ -773,6 +778,19 @@ def validators_dynamic(chk, st):
         lits.append(cT(cB(c["type"] is not None), cN(c["scale_kind"]), obs))
     corr(chk, "tc", hdr, "chk_tc", lits, "real update_training_config (noise options) = model")
     chk.evaluations += sum(len(v) for v in cases.values())
+    # which documented keyword arguments (nessai.utils.settings.get_all_kwargs) the covering array touches
+    doc = res.get("documented") or {}
+    for sampler, opts, inval in (("std", STD_OPTIONS, STD_INVALID), ("ins", INS_OPTIONS, INS_INVALID)):
+        if sampler not in doc:
+            continue
+        used = set(base_kwargs(sampler, chk.tier))
+        for _, kw, rkw, *_ in list(opts) + [(a, b, c, None) for a, b, c in inval]:
+            used |= set(kw) | set(rkw)
+        missing = [k for k in doc[sampler] if k not in used]
+        chk.count(f"documented-kwargs:{sampler}", len(doc[sampler]))
+        chk.count(f"documented-kwargs-not-varied:{sampler}", len(missing))
+        chk.notes.append(f"{sampler}: documented keyword arguments not varied by the covering array (I/O, logging, "
+                         f"checkpointing, plotting switches, deprecated aliases): {missing}")
 
 
 def corr(chk, name, hdr, fn, lits, what):
